@@ -56,25 +56,30 @@ Fixpoint take_frag (n : name) (l : list fragment) : option (fragment * list frag
    selections of the fragment they name.  [avail] are the fragments that may still be expanded on this
    path: a fragment is expanded at most once per path, so fragment cycles (invalid GraphQL) are cut where
    a name repeats, and [fuel = length avail] always suffices. *)
-Fixpoint below_inlined (fuel : nat) (avail : list fragment) (sels : list selection) {struct fuel} : Z :=
-  let fix sub (s : selection) : Z :=
+(* depth below a selection, given what a fragment spread expands to *)
+Definition sub_with (expand : name -> Z) : selection -> Z :=
+  fix sub (s : selection) : Z :=
     match s with
     | SField _ _ _ _ ss | SInline _ _ ss =>
       match ss with
       | [] => 0
       | _ => 1 + (fix go (l : list selection) : Z := match l with [] => 0 | x :: r => Z.max (sub x) (go r) end) ss
       end
-    | SSpread fr _ =>
-      match fuel with
-      | O => 0
-      | S f =>
-        match take_frag fr avail with
-        | Some (fg, avail') => below_inlined f avail' (fr_sels fg)
-        | None => 0
-        end
-      end
-    end in
-  (fix go (l : list selection) : Z := match l with [] => 0 | x :: r => Z.max (sub x) (go r) end) sels.
+    | SSpread fr _ => expand fr
+    end.
+Fixpoint max_sub (expand : name -> Z) (l : list selection) : Z :=
+  match l with [] => 0 | x :: r => Z.max (sub_with expand x) (max_sub expand r) end.
+
+Fixpoint below_inlined (fuel : nat) (avail : list fragment) (sels : list selection) {struct fuel} : Z :=
+  max_sub (fun fr =>
+             match fuel with
+             | O => 0
+             | S f =>
+               match take_frag fr avail with
+               | Some (fg, avail') => below_inlined f avail' (fr_sels fg)
+               | None => 0
+               end
+             end) sels.
 
 Definition depth_inlined (d : document) (o : operation) : Z :=
   match op_sels o with
